@@ -85,14 +85,17 @@ def runDial (p : Params) (t : List String) (implObs : String) : String × List S
   let modelObs :=
     match r.2.2 with
     | .panic => "res=panic"
-    | .err er => s!"res=err:{bErrStr er} conns={conns} {inEcho} out1={hex w1} out2={hex w2}"
+    | .err er => s!"res=err:{bErrStr er} conns={conns} {inEcho} out1={hex w1} out2={hex w2} left=0"
     | .ok k =>
       let wr := k.conn.write probe
       let wire := if wr.1 = probe then "plain" else "enc"
       let o1 := if k.retried then w1 else w1 ++ wr.1
       let o2 := if k.retried then w2 ++ wr.1 else w2
       s!"res=ok cipher={k.cipher} retried={boolStr k.retried} conns={conns} ext={hex k.peerExt} id={hex k.peerId} {inEcho} out1={hex o1} out2={hex o2} got={hex (connReadUpTo wr.2 probe.length)} wire={wire}"
-  let viol :=
+  -- C17: a connection whose handshake failed is closed, not kept (also the second socket of the plaintext retry)
+  let leftViol := if kvStr io "left" = "1" then
+      ["C17 failed-handshake-socket-left-open where=dial", "C12 failed-handshake-socket-left-open where=dial"] else []
+  let viol := leftViol ++
     if force ∧ enable then
       (if kvStr io "res" = "ok" then
         (if kvStr io "wire" ≠ "enc" then ["C12 forced-outgoing-plaintext-connection"] else []) ++
